@@ -755,23 +755,10 @@ Definition reg_premises (ops : list regop) : bool :=
   forallb (plain_compatible roots) plainU && reg_ops_ok roots plainU cs_init ops.
 
 (* a history in which the caller recovered from refused Handle calls and went on: an operation (5 pattern id) is a
-   Handle the implementation refused.  The model checks that it had to be refused (else it counts an anomaly) and leaves
-   the state as it is; so the history is, for C11, the history without these operations. *)
-Fixpoint reg_run_skip (s : cstate) (ops : list sexp) (k anom : nat) : cstate * option (nat * failure) * nat :=
-  match ops with
-  | [] => (s, None, anom)
-  | x :: rest =>
-      if Z.eqb (sx_int (sx_nth 0 x)) 5 then
-        match cs_step s (sx_rop_reg x) with
-        | inr _ => reg_run_skip s rest (S k) anom
-        | inl _ => reg_run_skip s rest (S k) (S anom)
-        end
-      else
-        match cs_step s (sx_rop_reg x) with
-        | inl s' => reg_run_skip s' rest (S k) anom
-        | inr f => (s, Some (k, f), anom)
-        end
-  end.
+   Handle the implementation refused (Registry.cs_run_skip; RegistryProofs.run_skip_is_run_of_accepted: the state is
+   that of the history without these operations, to which theorem C11 applies). *)
+Definition reg_run_skip (s : cstate) (ops : list sexp) (k anom : nat) : cstate * option (nat * failure) * nat :=
+  cs_run_skip s (map (fun x => (Z.eqb (sx_int (sx_nth 0 x)) 5, sx_rop_reg x)) ops) k anom.
 
 Definition run_reg (c impl : sexp) : sexp :=
   let O := sx_oracles (sx_nth 0 c) in
